@@ -147,11 +147,27 @@ def _json_default(o):
 # forked shard execution
 # ---------------------------------------------------------------------------
 
-def _child(mod, spec, out_path, timeout):
+def _silent_debug_logging():
+    """The library's loggers at DEBUG level with a handler that discards everything: what the library does must not
+    depend on whether anybody listens to its log (guards such as logger.isEnabledFor(DEBUG) become true)."""
+    import logging
+    logging.disable(logging.NOTSET)
+    for name in ("", "nmea2000"):
+        lg = logging.getLogger(name)
+        lg.handlers = [logging.NullHandler()]
+    lg = logging.getLogger("nmea2000")
+    lg.setLevel(logging.DEBUG)
+    lg.propagate = False
+
+
+def _child(mod, spec, out_path, timeout, idx=0):
     try:
         faulthandler.enable()
         faulthandler.dump_traceback_later(max(5, timeout - 2), exit=False)
         acc = Acc(mod.ID)
+        if idx % 3 == 1 and os.environ.get("VERIF_NO_DEBUG_LOGGING") != "1":
+            _silent_debug_logging()
+            acc.count("shards_run_with_library_debug_logging_on")
         try:
             mod.run_shard(spec, acc)
         except BaseException as e:  # harness failure, not a property verdict
@@ -180,7 +196,7 @@ def run_shards(mod, specs, timeout: float, jobs: int = NCPU) -> Acc:
                 sys.stderr.flush()
                 pid = os.fork()
                 if pid == 0:
-                    _child(mod, spec, out, timeout)
+                    _child(mod, spec, out, timeout, idx)
                 running[pid] = (idx, time.time(), out, spec)
             # reap
             done_any = False
